@@ -237,6 +237,22 @@ vbi_pfc_demux_feed		(vbi_pfc_demux *	dx,
 			goto desynced;
 
 		if (pgno != dx->block.pgno) {
+			if ((pgno ^ dx->block.pgno) & 0xF00) {
+				/* Header of another magazine. In parallel
+				   mode it does not end our page, and in
+				   serial mode no more packets of our page
+				   will follow (packets of other magazines
+				   are filtered out below). */
+				return TRUE;
+			}
+
+			if (dx->n_packets > 0
+			    && dx->packet <= dx->n_packets) {
+				/* The last packets of our page are
+				   missing, wait for new block. */
+				vbi_pfc_demux_reset (dx);
+			}
+
 			dx->n_packets = 0;
 			return TRUE;
 		}
@@ -248,6 +264,13 @@ vbi_pfc_demux_feed		(vbi_pfc_demux *	dx,
 
 		stream = (subno >> 8) & 15;
 		if (stream != dx->block.stream) {
+			if (dx->n_packets > 0
+			    && dx->packet <= dx->n_packets) {
+				/* The last packets of our page are
+				   missing, wait for new block. */
+				vbi_pfc_demux_reset (dx);
+			}
+
 			dx->n_packets = 0;
 			return TRUE;
 		}
